@@ -312,7 +312,8 @@ def gen_plan(rng, tier, idx):
             others_times.extend(itr["times"])
         trackers.append({"kind": _pick(rng, EXTRA_KINDS), "interrupt": itr})
     return {"engine": "noise-sim", "prop": PROPERTY, "mode": mode, "backend": backend, "solver": solver, "grid": grid,
-            "state": state, "eq": eq, "noise": noise, "interp": interp, "dt": dt, "n": n, "t_start": t_start,
+            "state": state, "eq": eq, "noise": noise, "interp": interp, "interp_via": "attr" if rng.random() < 0.35 else "ctor",
+            "dt": dt, "n": n, "t_start": t_start,
             "seed": rng.randrange(1 << 30), "trackers": trackers}
 
 
@@ -475,7 +476,7 @@ def _make_equation(B: _Built, rng, deterministic: bool = False):
             rhs = {"u": f"-{eq['k']!r} * u{lap}"}
         if deterministic:
             return pde.PDE(rhs, bc="auto_periodic_neumann")
-        return pde.PDE(rhs, bc="auto_periodic_neumann", noise=B.noise_arg, noise_interpretation=plan["interp"], rng=rng)
+        return _with_interp(plan, lambda **kw: pde.PDE(rhs, bc="auto_periodic_neumann", noise=B.noise_arg, rng=rng, **kw))
 
     a_arr, b, w = B.a_arr, B.b, B.w
 
@@ -508,7 +509,7 @@ def _make_equation(B: _Built, rng, deterministic: bool = False):
             return rate
 
     if B.noise_kind != "mult":
-        return LinearSDE(noise=B.noise_arg, noise_interpretation=plan["interp"], rng=rng)
+        return _with_interp(plan, lambda **kw: LinearSDE(noise=B.noise_arg, rng=rng, **kw))
 
     s0, s1 = B.s0_arr, B.s1_arr
 
@@ -528,7 +529,17 @@ def _make_equation(B: _Built, rng, deterministic: bool = False):
 
             return noise_variance_diff if ret_diff else noise_variance
 
-    return MultSDE(noise_interpretation=plan["interp"], rng=rng)
+    return _with_interp(plan, lambda **kw: MultSDE(rng=rng, **kw))
+
+
+def _with_interp(plan, make):
+    """The interpretation is a public attribute of the equation: it is either given to the constructor or assigned
+    afterwards (for classes like DiffusionPDE assignment is the only way)."""
+    if plan.get("interp_via") == "attr":
+        eq = make()
+        eq.noise_interpretation = plan["interp"]
+        return eq
+    return make(noise_interpretation=plan["interp"])
 
 
 def _build_extras(plan, B, cut_times):
@@ -1004,6 +1015,8 @@ def simplify(plan):
         yield variant(lambda p: p.update(noise={"kind": "scalar", "vars": [first], **keep}))
     if plan["interp"] != "ito":
         yield variant(lambda p: p.update(interp="ito"))
+    if plan.get("interp_via") == "attr":
+        yield variant(lambda p: p.update(interp_via="ctor"))
     if plan["solver"] != "euler":
         yield variant(lambda p: p.update(solver="euler"))
     if plan["t_start"] != 0.0:
